@@ -39,7 +39,7 @@ PROPS["C05"] = dict(
     exhaustive_axis="65536 first words (token round trip); every dstlen 0..len+2",
     technique="runtime monitoring: disassemble/assemble/disassemble/execute twin of the real code over all first words, "
               "decode-table forms as the 'unused bits' oracle, canary-guarded C-binding buffers (plus ASan exact-size allocations), "
-              "the tree's own makedsp1/dsp1_reader against the shipped firmware",
+              "the tree's own makedsp1/dsp1_reader against the shipped firmware, call-history independence of Do()/C binding/parser (purity monitor)",
     level_text="Exhaustive over the 65536 first words for the token-level round trip and over every buffer size 0..len+2 for the "
                "sampled texts; second words, machine states and the (opcode, second word) picks for the C binding are sampled "
                "(seeded); the firmware clause is decided completely for the four shipped sources.",
